@@ -21,6 +21,7 @@ import oracle
 import scen
 
 NEEDS_KERNEL = True
+R5 = "trend_design_matrix=Kernel.designRow"
 R1, R2, R3, R4 = "orbit.rv~design.x", "bayes.identity", "unmarg.api(offsets)", "samples.t_ref=data.t_ref"
 RULE = ("random problems (p 1..3, q 0..2, jitter, explicit t_ref != min t in a third of the single-survey cases) x rows "
         "returned by rejection_sample(return_logprobs=True) and hand-built rows; non-trivial iff p>=2 or q>=1 or "
@@ -89,6 +90,30 @@ def run_case(ctx, g):
         ctx.violation(R4, g, inp0, dict(samples_t_ref=got_tref), dict(data_t_ref=c["t_ref"]),
                       "posterior samples must carry the data's reference epoch", tags=tags0)
         return
+    # ---- R5: the trend/offset design matrix the sampler builds vs the Lean designRow (exact rationals) ----
+    from thejoker.data_helpers import validate_prepare_data
+    all_data, ids, trend_M = validate_prepare_data(pr.data, pr.p, pr.q)
+    bad5 = None
+    if trend_M.shape != (c["n"], pr.p + pr.q):
+        bad5 = f"shape {trend_M.shape}"
+    else:
+        # rows are matched by their (time, velocity) so that any order of tied epochs is accepted
+        impl_rows = {(float(a), float(b)): trend_M[k] for k, (a, b) in enumerate(zip(all_data.t.tcb.mjd, all_data.rv.to_value(du)))}
+        for i in range(c["n"]):
+            key = min(impl_rows, key=lambda kk: abs(kk[0] - float(c["t"][i])) + abs(kk[1] - float(c["y"][i])) / (1 + abs(float(c["y"][i]))))
+            row_impl = impl_rows[key]
+            dt = float(c["t"][i]) - c["t_ref"]
+            m = ctx.model({"op": "kernel.designRow", "kep": core.bits(0.0), "dt": core.bits(dt), "id": int(c["label"][i]),
+                           "q": pr.q, "p": pr.p})["row"][1:]
+            want = np.array([float(core.rat(v)) for v in m])
+            if not np.all(np.abs(row_impl - want) <= 8e-16 * pr.p * np.abs(want)):
+                bad5 = f"epoch t={c['t'][i]} rv={c['y'][i]}: {row_impl.tolist()} vs model {want.tolist()}"
+                break
+    ctx.evaluated(R5, (g["index"],) if (pr.q > 0 or pr.p > 1) else None)
+    if bad5:
+        ctx.violation(R5, g, inp0, dict(trend_M=trend_M), None,
+                      "design matrix columns must be [1 | survey indicators | (t - t_ref)^l] with every epoch labelled by its "
+                      "own survey: " + bad5, tags=tags0)
     names = ["K", "v0"] + [f"dv0_{j+1}" for j in range(pr.q)] + [f"v{l}" for l in range(1, pr.p)]
     units = [du, du] + [du] * pr.q + [du / u.day ** l for l in range(1, pr.p)]
     nrows = min(len(out), 4)
